@@ -44,8 +44,9 @@ CLAIMED = {
                      'integrateFuncJac, integrate and integrate2 (helpers inlined) are interpreted against a model of '
                      "scipy.integrate.ode / odeint written from scipy's interface (exact flow of a test problem, state buffer "
                      "updated in place, evaluators called with the library's argument order) over all grid forms x "
-                     'includeOrigin x full_output x methods x eigenvalue schedules x integer/float x0; func/jac pairing and '
-                     'parameter-name agreement at the remaining call sites; shape inference of the jacobian evaluator; about 800 histories [solve, assign '
+                     'includeOrigin x full_output x methods x eigenvalue schedules x integer/float x0; at every integrateFuncJac call site the two callables handed over are evaluated and '
+                     'called as scipy.integrate.ode calls them - f(t, y), jac(t, y) - on vectors of symbols and compared with the model\'s right-hand sides and their own Jacobian routines at (y, t); '
+                     'every time-first twin X_T is compared with X for the same roles; shape inference of the jacobian evaluator; about 800 histories [solve, assign '
                      'initial state / time / values / parameters in several forms (real setters interpreted), solve again] on one model object; sibling agreement of the internal step budget configured for odeint and scipy.integrate.ode'),
         "level": ("Decides the repo-owned half of 'one row per requested time, in order, origin first, each row the solution "
                      "at its own time': with an exact model integrator the rows must equal the exact flow at the requested "
